@@ -39,7 +39,7 @@ pub fn typed_elements(r: &mut Rng, n: usize, findings: &mut Vec<Value>) -> Value
             let mut lines: Vec<String> = vec![];
             let mut exp: Vec<(&'static str, Option<f32>)> = vec![];
             let mut group = None;
-            let kind = r.below(5);
+            let kind = r.below(6);
             let mut attr = |lines: &mut Vec<String>, r: &mut Rng, k: &str, v: &str| lines.push(format!("{}{}{}={}{}", pad(r), k, pad(r), pad(r), v));
             match kind {
                 0 => {
@@ -116,6 +116,26 @@ pub fn typed_elements(r: &mut Rng, n: usize, findings: &mut Vec<Value>) -> Value
                     }
                     text.push_str(&format!("\"{}\" = BUILDING-SHADE\n", name));
                 }
+                4 => {
+                    // a shade given by 3..14 vertices: they must come back in the order of their numbers
+                    let n = 3 + r.below(12);
+                    let (tr, rf) = (gen_num(r), gen_num(r));
+                    attr(&mut lines, r, "TRAN", &tr);
+                    attr(&mut lines, r, "REFL", &rf);
+                    exp.push(("tran", Some(f(&tr))));
+                    exp.push(("refl", Some(f(&rf))));
+                    const VK: [&str; 42] = ["v1x", "v1y", "v1z", "v2x", "v2y", "v2z", "v3x", "v3y", "v3z", "v4x", "v4y", "v4z", "v5x", "v5y", "v5z", "v6x", "v6y", "v6z", "v7x", "v7y", "v7z", "v8x", "v8y", "v8z",
+                        "v9x", "v9y", "v9z", "v10x", "v10y", "v10z", "v11x", "v11y", "v11z", "v12x", "v12y", "v12z", "v13x", "v13y", "v13z", "v14x", "v14y", "v14z"];
+                    for i in 0..n {
+                        let c: Vec<String> = (0..3).map(|_| format!("{}", r.grid(-50.0, 50.0, 0.25))).collect();
+                        attr(&mut lines, r, &format!("V{}", i + 1), &format!("( {}, {}, {} )", c[0], c[1], c[2]));
+                        for (j, t) in c.iter().enumerate() {
+                            exp.push((VK[i * 3 + j], Some(f(t))));
+                        }
+                    }
+                    exp.push(("nvertices", Some(n as f32)));
+                    text.push_str(&format!("\"{}\" = BUILDING-SHADE\n", name));
+                }
                 _ => {
                     let v: Vec<String> = (0..5).map(|_| gen_num(r)).collect();
                     attr(&mut lines, r, "GAP", "\"Hueco tipo\"");
@@ -162,9 +182,21 @@ pub fn typed_elements(r: &mut Rng, n: usize, findings: &mut Vec<Value>) -> Value
             } else if let Some(fr) = data.db.frames.get(name) {
                 Some((vec![("conductivity", Some(fr.conductivity)), ("absorptivity", Some(fr.absorptivity)), ("width", Some(fr.width))], Some(fr.group.clone())))
             } else if let Some(s) = data.shadings.iter().find(|s| &s.name == name) {
-                s.geometry.as_ref().map(|g| {
-                    (vec![("tran", Some(s.tran)), ("refl", Some(s.refl)), ("x", Some(g.x)), ("y", Some(g.y)), ("z", Some(g.z)), ("height", Some(g.height)), ("width", Some(g.width)), ("azimuth", Some(g.azimuth)), ("tilt", Some(g.tilt))], None)
-                })
+                if let Some(vs) = &s.vertices {
+                    const VK: [&str; 42] = ["v1x", "v1y", "v1z", "v2x", "v2y", "v2z", "v3x", "v3y", "v3z", "v4x", "v4y", "v4z", "v5x", "v5y", "v5z", "v6x", "v6y", "v6z", "v7x", "v7y", "v7z", "v8x", "v8y", "v8z",
+                        "v9x", "v9y", "v9z", "v10x", "v10y", "v10z", "v11x", "v11y", "v11z", "v12x", "v12y", "v12z", "v13x", "v13y", "v13z", "v14x", "v14y", "v14z"];
+                    let mut v: Vec<(&'static str, Option<f32>)> = vec![("tran", Some(s.tran)), ("refl", Some(s.refl)), ("nvertices", Some(vs.len() as f32))];
+                    for (i, p) in vs.iter().enumerate().take(14) {
+                        v.push((VK[i * 3], Some(p.x)));
+                        v.push((VK[i * 3 + 1], Some(p.y)));
+                        v.push((VK[i * 3 + 2], Some(p.z)));
+                    }
+                    Some((v, None))
+                } else {
+                    s.geometry.as_ref().map(|g| {
+                        (vec![("tran", Some(s.tran)), ("refl", Some(s.refl)), ("x", Some(g.x)), ("y", Some(g.y)), ("z", Some(g.z)), ("height", Some(g.height)), ("width", Some(g.width)), ("azimuth", Some(g.azimuth)), ("tilt", Some(g.tilt))], None)
+                    })
+                }
             } else if let Some(w) = data.windows.iter().find(|w| &w.name == name) {
                 Some((vec![("x", Some(w.x)), ("y", Some(w.y)), ("height", Some(w.height)), ("width", Some(w.width)), ("setback", Some(w.setback))], Some(w.cons.clone())))
             } else {
